@@ -60,7 +60,7 @@ def run(ctx):
                       'a load that failed (null zone_) can be recorded and handed out as a real zone: the loader then returns true '
                       'for a name that could not be resolved' if arm['kind'] == 'fresh' else arm['why'],
                       construct='outcome:%s' % arm['kind'], detail=arm['kind'])
-    ctx.minimum('C19-out', 8)
+    ctx.minimum('C19-out', 6)
 
     # ---- C19-null
     ks = [k for k in G.find('cctz::time_zone::time_zone') if len(k[1]) == 0]
